@@ -17,6 +17,9 @@ type SkelOptions struct {
 	// outer predicate scans, so that predicates are evaluated while another lookahead is running
 	// (needs recursiveLookaheads = true).
 	NestedLookahead bool
+	// MultiCase gives every lookahead decision three alternatives - (?= A), (?= !A & B), (?= !A & !B) - so
+	// that the generated lookahead rule is a chain of two lookahead calls.
+	MultiCase bool
 	// TrailingNull always includes the statement form that ends with a nullable nonterminal.
 	TrailingNull bool
 	// TrailingNullMarker puts a state marker behind that nullable nonterminal (otherwise two times in three).
@@ -174,13 +177,25 @@ func RandSkeleton(r *rand.Rand, o SkelOptions) *Grammar {
 	}
 	if o.Lookahead || o.NestedLookahead {
 		// 'q' (?= LA) '(' Args ')' 'x' ';'  |  'q' (?= !LA) '(' Args ')' 'y' ';'
+		// MultiCase: 'q' (?= LA) ... 'x' ';' | 'q' (?= !LA & LA2) ... 'y' ';' | 'q' (?= !LA & !LA2) ... 'z' ';'
 		la := b.nonterm("LA")
 		q, x, y := b.word(), b.word(), b.word()
 		b.rule(la, lp, b.nt(args), rp, x)
 		r1 := b.rule(item, q, lp, b.nt(args), rp, x, semi)
 		r1.Deco = map[int]string{1: "(?= LA)"}
-		r2 := b.rule(item, q, lp, b.nt(args), rp, y, semi)
-		r2.Deco = map[int]string{1: "(?= !LA)"}
+		if o.MultiCase {
+			la2 := b.nonterm("LA2")
+			z := b.word()
+			b.rule(la2, lp, b.nt(args), rp, y)
+			r2 := b.rule(item, q, lp, b.nt(args), rp, y, semi)
+			r2.Deco = map[int]string{1: "(?= !LA & LA2)"}
+			r3 := b.rule(item, q, lp, b.nt(args), rp, z, semi)
+			r3.Deco = map[int]string{1: "(?= !LA & !LA2)"}
+			b.feature("lookahead-multicase")
+		} else {
+			r2 := b.rule(item, q, lp, b.nt(args), rp, y, semi)
+			r2.Deco = map[int]string{1: "(?= !LA)"}
+		}
 		b.feature("lookahead")
 		if o.NestedLookahead {
 			// Arg: 'm' (?= LB) '(' Args ')' 'u' | 'm' (?= !LB) '(' Args ')' 'v'   -- evaluated inside LA
@@ -189,8 +204,18 @@ func RandSkeleton(r *rand.Rand, o SkelOptions) *Grammar {
 			b.rule(lb, lp, b.nt(args), rp, u)
 			r3 := b.rule(arg, m, lp, b.nt(args), rp, u)
 			r3.Deco = map[int]string{1: "(?= LB)"}
-			r4 := b.rule(arg, m, lp, b.nt(args), rp, v)
-			r4.Deco = map[int]string{1: "(?= !LB)"}
+			if o.MultiCase {
+				lb2 := b.nonterm("LB2")
+				w := b.word()
+				b.rule(lb2, lp, b.nt(args), rp, v)
+				r4 := b.rule(arg, m, lp, b.nt(args), rp, v)
+				r4.Deco = map[int]string{1: "(?= !LB & LB2)"}
+				r5 := b.rule(arg, m, lp, b.nt(args), rp, w)
+				r5.Deco = map[int]string{1: "(?= !LB & !LB2)"}
+			} else {
+				r4 := b.rule(arg, m, lp, b.nt(args), rp, v)
+				r4.Deco = map[int]string{1: "(?= !LB)"}
+			}
 			b.feature("nested-lookahead")
 		}
 	}
